@@ -7,7 +7,8 @@ use serde_json::json;
 use std::collections::BTreeSet;
 
 const ELIGIBLE_NAMES: [&str; 10] = ["A.sol", ".sol", "a b.sol", "合约.sol", "x.sol.sol", "T.SOL.sol", "UPPER.sol", "a.tt.sol", "at.sol", "t.sol"];
-const INELIGIBLE_NAMES: [&str; 38] = [
+const INELIGIBLE_NAMES: [&str; 47] = [
+    "foundry.toml", "package.json", "hardhat.config.js", "remappings.txt", ".solhintignore", "Solstat.toml", "solstat_report.md", ".env", "brownie-config.yaml",
     "é.json", "設計.txt", "ü.md", "añb.txt", "ñ", "日本語.md", "résumé.txt", "é.t.sol", "合.SOL", "ö.sol~", "a\u{0301}.txt", "𝔘.dat",
     "a.SOL", "a.Sol", "a.sOl", "a.sol.bak", "a.sol~", "a.solx", "asol", "sol", "a.t.sol", "A.T.SOL", "a.T.sol", "a.t.Sol", ".t.sol", "Vault.t.sol",
     "README.md", "Makefile", "with space.txt", "tab\tname", "line\nbreak.sol.txt", "a.sol ", "a.sol.", "合约.t.sol", "a.json", "b.t.SOL", ".gitignore", "x.T.Sol",
@@ -69,6 +70,52 @@ fn gen_mixed(rng: &Rng, pool: &Pool, depth: usize, big: bool) -> (Vec<Ent>, Vec<
             without.push(e);
         }
     }
+    // an eligible file of more than 64 KiB / 1 MiB: comment lines in front of ordinary content
+    if rng.chance(1, 14) {
+        let n = format!("Huge{}.sol", rng.below(9));
+        if used.insert(n.clone()) {
+            let lines = if rng.chance(1, 3) { 30000 } else { 1900 };
+            let mut t = String::new();
+            for i in 0..lines {
+                t.push_str(&format!("// filler line {:06} x++; a >= b\n", i));
+            }
+            t.push_str(&rng.pick(&pool.progs).1);
+            let e = Ent::File { name: n, bytes: t.into_bytes() };
+            with.push(e.clone());
+            without.push(e);
+        }
+    }
+    // second names (hard links) of an eligible file: an eligible one (kept in both trees) and ineligible ones (decoys)
+    if rng.chance(1, 5) {
+        if let Some(Ent::File { name, .. }) = with.iter().find(|e| matches!(e, Ent::File { .. })) {
+            let of = name.clone();
+            if rng.chance(1, 2) {
+                let n = format!("Alias{}.sol", rng.below(9));
+                if used.insert(n.clone()) {
+                    with.push(Ent::Hard { name: n.clone(), of: of.clone() });
+                    without.push(Ent::Hard { name: n, of: of.clone() });
+                }
+            }
+            let n = rng.ps(&["Alias.sol.orig", "Alias.t.sol", "alias.txt", "Alias.SOL"]).to_string();
+            if used.insert(n.clone()) {
+                decoys.push((n.clone(), "hard-link-to-an-eligible-file"));
+                with.push(Ent::Hard { name: n, of });
+            }
+        }
+    }
+    // now and then a chain of directories with 200-byte names (paths of more than 1024 bytes) around a small sub-tree
+    if depth == 0 && rng.chance(1, 10) {
+        let (w, wo, d) = gen_mixed(rng, pool, 2, false);
+        decoys.extend(d);
+        let (mut w, mut wo) = (w, wo);
+        for lvl in 0..6 {
+            let n = format!("{}{}", "d".repeat(199), lvl);
+            w = vec![Ent::Dir { name: n.clone(), kids: w }];
+            wo = vec![Ent::Dir { name: n, kids: wo }];
+        }
+        with.extend(w);
+        without.extend(wo);
+    }
     for _ in 0..rng.range(0, 4) {
         let mut n = rng.ps(&INELIGIBLE_NAMES).to_string();
         if rng.chance(1, 10) {
@@ -82,7 +129,12 @@ fn gen_mixed(rng: &Rng, pool: &Pool, depth: usize, big: bool) -> (Vec<Ent>, Vec<
     }
     if depth < 3 {
         for _ in 0..rng.range(0, 2) {
-            let n = format!("d{}{}", rng.below(20), if rng.chance(1, 6) { ".t.sol" } else if rng.chance(1, 6) { ".sol" } else { "" });
+            let n = if rng.chance(1, 4) {
+                // directory names that project tools treat specially
+                rng.ps(&["lib", "node_modules", "test", "script", "out", "cache", "artifacts", "build", ".git", "mocks"]).to_string()
+            } else {
+                format!("d{}{}", rng.below(20), if rng.chance(1, 6) { ".t.sol" } else if rng.chance(1, 6) { ".sol" } else { "" })
+            };
             if used.insert(n.clone()) {
                 let (w, wo, d) = gen_mixed(rng, pool, depth + 1, big);
                 decoys.extend(d);
